@@ -409,6 +409,10 @@ pub fn jobs(prop: &str, tier: &str) -> Vec<Job> {
                     add8(fib_profile(k), 2, 1, &mut out);
                 }
                 add8(huge_total_profile(), 2, 0, &mut out);
+                {
+                    let p = small_profiles(3).into_iter().find(|p| p.name == "counts[1, 2, 3]").unwrap();
+                    out.push(job(move || Box::new(HuffMachine::<u8>::new_raw(p.clone(), 2)), Mode::Bfs(BfsCfg::new(4)), false));
+                }
                 out.push(job(|| Box::new(HuffBuildMachine::<u32>::new(uniform_profile(140_000, 1))), Mode::Bfs(BfsCfg::new(1)), false));
                 out.push(job(|| Box::new(HuffBuildMachine::<u32>::new(mixed_profile(70_000))), Mode::Bfs(BfsCfg::new(1)), false));
                 out.push(job(|| Box::new(HuffMachine::<u32>::new(fib_profile(40), 1)), Mode::Bfs(BfsCfg::new(2)), false));
@@ -428,6 +432,10 @@ pub fn jobs(prop: &str, tier: &str) -> Vec<Job> {
                 add8(fib_profile(18), 1, 0, &mut out);
                 add8(fib_profile(28), 1, 0, &mut out);
                 add8(huge_total_profile(), 1, 0, &mut out);
+                {
+                    let p = small_profiles(3).into_iter().find(|p| p.name == "counts[1, 2, 3]").unwrap();
+                    out.push(job(move || Box::new(HuffMachine::<u8>::new_raw(p.clone(), 1)), Mode::Bfs(BfsCfg::new(3)), false));
+                }
                 // more distinct symbols than a 16-bit quantity can number (needs a symbol type wider than u16)
                 out.push(job(|| Box::new(HuffBuildMachine::<u32>::new(uniform_profile(65_600, 1))), Mode::Bfs(BfsCfg::new(1)), false));
                 add8(empty.clone(), 2, 1, &mut out);
@@ -541,6 +549,8 @@ pub fn jobs(prop: &str, tier: &str) -> Vec<Job> {
                     c.serde_replace = false;
                 }
             });
+            // collapsing over a Huffman container: equality is decided between differently represented (coded) items
+            out.push(job(|| Box::new(crate::m_huff::HuffCollapseMachine::new()), Mode::Bfs(BfsCfg::new(if thorough { 4 } else { 3 })), false));
         }
         "C17" => {
             let mut v = AllocJobs { out: &mut out, thorough };
@@ -571,6 +581,23 @@ pub fn jobs(prop: &str, tier: &str) -> Vec<Job> {
                 Mode::Bfs(BfsCfg::new(2)),
                 false,
             ));
+            // one very wide row (thousands of columns), then clear
+            {
+                use crate::spec::{Cols, Consec, Mirror, Owned, Str};
+                type IO = flatcontainer::impls::index::IndexOptimized;
+                for n in [1030usize, 5000, 70_000] {
+                    out.push(job(
+                        move || Box::new(crate::m_alloc::HugeClearMachine::<Cols<Consec<Str<Owned<u8>>, IO>, IO>>::sized(|n| (0..n).map(|i| format!("c{i}")).collect(), n, "one row with thousands of cells")),
+                        Mode::Bfs(BfsCfg::new(2)),
+                        false,
+                    ));
+                    out.push(job(
+                        move || Box::new(crate::m_alloc::HugeClearMachine::<Cols<Mirror<u8>, IO>>::sized(|n| (0..n).map(|i| i as u8).collect(), n, "one row with thousands of cells")),
+                        Mode::Bfs(BfsCfg::new(2)),
+                        false,
+                    ));
+                }
+            }
         }
         "C12" => {
             {
@@ -671,6 +698,16 @@ pub fn jobs(prop: &str, tier: &str) -> Vec<Job> {
             c.twin = Twin::CanonForm;
             c.clear = true;
             life(&mut out, c, if thorough { 5 } else { 3 }, &[], &|i| i.n_forms > 1, &|_, _| {});
+            // Huffman containers: slices and raw / coded / borrowed read items of the same value must leave the same
+            // statistics behind (decided at the next merge_regions against the symbols that were pushed), from a raw and
+            // from a coded start
+            {
+                use crate::m_huff::*;
+                let p = small_profiles(3).into_iter().find(|p| p.name == "counts[1, 2, 3]").unwrap();
+                let p2 = p.clone();
+                out.push(job(move || Box::new(HuffMachine::<u8>::new_raw(p.clone(), 1)), Mode::Bfs(BfsCfg::new(if thorough { 4 } else { 3 })), false));
+                out.push(job(move || Box::new(HuffMachine::<u8>::new(p2.clone(), 1)), Mode::Bfs(BfsCfg::new(if thorough { 3 } else { 2 })), false));
+            }
         }
         _ => {}
     }
